@@ -5,6 +5,7 @@
            Mem/ListsBlock.v (blocking pops), Mem/ListsRefine.v (dispatcher, programs). *)
 Require Import Base.Bytes Base.GoInt Base.Reply Mem.Types Mem.Inv Mem.Lists Mem.Exec.
 Require Import Mem.ListsSpec Mem.ListsProofs Mem.ListsBlock Mem.ListsRefine.
+Require Import Mem.Server Mem.ListsBg Mem.ListsBgProofs.
 Local Open Scope Z_scope.
 
 (* ---------------------------------------------------------------- one command *)
@@ -155,6 +156,30 @@ Theorem C09_two_poppers : forall left1 left2 d keys1 keys2 k1 x1 d1 k2 x2 d2,
                zlength (elems d2 k2) = zlength (elems d k2) - 1).
 Proof. exact two_poppers. Qed.
 Print Assumptions C09_two_poppers.
+
+(* The replay model used by the tie for steps during which other connections may act
+   ([srv_exec_bg], Mem/ListsBg.v) is the plain dispatcher step when nobody else acts: exactly for
+   every command that is not a well-formed blocking pop; for BLPOP/BRPOP (watchdog not involved)
+   the same reply, the return instant of [bpop_run], and a server that looks the same at every
+   later clock (the dispatcher has additionally dropped keys already expired at [now]). *)
+Theorem C09_bg_no_events_is_plain_nonblocking : forall s conn now nowms args hint wd,
+  blocking_form args = None ->
+  srv_exec_bg s conn now nowms args hint [] wd =
+  (fst (srv_exec s conn now nowms args hint), [], snd (srv_exec s conn now nowms args hint), nowms).
+Proof. exact bg_no_events_plain_nonblocking. Qed.
+Print Assumptions C09_bg_no_events_is_plain_nonblocking.
+
+Theorem C09_bg_no_events_is_plain : forall s conn now nowms args hint wd lft keys t d,
+  blocking_form args = Some (lft, keys, t) ->
+  block_timer_ms t <= wd ->
+  now = nowms / 1000 ->
+  nth_error (sdbs s) (sel_lookup conn (ssel s)) = Some d -> db_wf d ->
+  let '(r, outs, s_bg, tend) := srv_exec_bg s conn now nowms args hint [] wd in
+  let '(r', s_pl) := srv_exec s conn now nowms args hint in
+  r = r' /\ outs = [] /\ srv_equiv now s_bg s_pl /\
+  tend = snd (bpop_run lft (purge d now) nowms args).
+Proof. exact bg_no_events_plain_blocking. Qed.
+Print Assumptions C09_bg_no_events_is_plain.
 
 (* ---------------------------------------------------------------- the reference on the documentation's examples
    (sanity of the transcription; closed computations) *)
